@@ -4,7 +4,7 @@ For a returned (r, f) let m = max(p, q), A = 10^(m-p) x, B = 10^(m-q) y, Rm = 10
   A - Rm is an integer multiple of B (as polynomials, using the path's equalities), |Rm| < |B|, sign(Rm) in {0, sign(A)}, f <= m.
 """
 from ..absint import Interp, Opts, Agg, Int, K, ZERO, NONZERO, POS, NEG, NONNEG, NONPOS
-from ..harness import (M, T_REM, T_CREM, SCALES_QUICK, SCALES_ALL, dec_val, int_val, dec_parts, opt_parts, poly_eq, show_outcome,
+from ..harness import (dec_coeff, M, T_REM, T_CREM, SCALES_QUICK, SCALES_ALL, dec_val, int_val, dec_parts, opt_parts, poly_eq, show_outcome,
                        show_poly, notes_of, get_db, run_jobs, find_root)
 from ..db import INT_TYPES9, span_str
 from ..poly import padd, pscale, pconst, pmul, pneg, pfreeze, pis_const
@@ -71,14 +71,14 @@ def run_job(job):
     xr = {'any': (-M, M), 'neg': (-M, -1), 'pos': (1, M), 'zero': (0, 0)}[xcls]
     if form == 'DD':
         xa, ya = dec_val(st, 'x', p, *xr), dec_val(st, 'y', q)
-        xc, yc = xa.fields[0], ya.fields[0]
+        xc, yc = dec_coeff(xa), dec_coeff(ya)
     elif form == 'DI':
         xa, ya = dec_val(st, 'x', p, *xr), int_val(st, 'y', ty)
-        xc, yc = xa.fields[0], ya
+        xc, yc = dec_coeff(xa), ya
         q = 0
     else:
         xa, ya = int_val(st, 'x', ty), dec_val(st, 'y', q)
-        xc, yc = xa, ya.fields[0]
+        xc, yc = xa, dec_coeff(ya)
         p = 0
     I.call_root(st, fn, [xa, ya])
     outs = I.explore(st)
